@@ -110,6 +110,7 @@ func main() {
 	info := genCodec(*repo, *out)
 	genMessages(*repo, *out, info)
 	genTypes(*repo, *out)
+	genRouting(*repo, *out)
 }
 
 // ---------------------------------------------------------------------------------------------
